@@ -8,6 +8,8 @@ from ..dataflow import flow_of
 from ..model import AnalysisError, FuncInfo, Program, body_walk, calls_in_body, dotted, norm, parent
 from ..poly import Poly, PolyEnv
 from ..report import Result
+from ..normalform import canon, normal_form, strip_ordinals
+from ..pathcond import guarded, path_conditions
 
 TITLE = "A multi-file stream reads as the concatenation of its data sections"
 LEVEL = "other"
@@ -49,6 +51,10 @@ def _on_true_branch(node: ast.AST, tests: tuple[str, ...]) -> bool:
     return False
 
 
+def P(text: str) -> Poly:
+    return PolyEnv().poly(ast.parse(text, mode="eval").body)
+
+
 def run(prog: Program, res: Result, tier: str) -> None:
     prog.consulted.update({FIO, READERS, "sigpyproc.io.sigproc"})
     # ---- R1 header skip -----------------------------------------------------------------------
@@ -61,10 +67,16 @@ def run(prog: Program, res: Result, tier: str) -> None:
             res.bad("R1", f, c, f"{f.qualname} opens a file directly: the new file starts at byte 0, so header bytes would be read as data; "
                     f"only the constructor and _seek2hdr may call _open", key=key)
     s2 = prog.func(FIO, "FileReader._seek2hdr")
-    body = [norm(s) for s in s2.node.body if not (isinstance(s, ast.Expr) and isinstance(s.value, ast.Constant))]
-    ok = body == ["self._open(ifile)", "self.file_obj.seek(self.sinfo.entries[ifile].hdrlen)"]
+    nf2 = normal_form(s2)
+    opens = nf2.calls("self._open")
+    seeks = nf2.calls("self.file_obj.seek")
+    ok = len(opens) == 1 and len(seeks) == 1 and opens[0].text() == canon("self._open(ifile)") and \
+        seeks[0].text() in (canon("self.file_obj.seek(self.sinfo.entries[ifile].hdrlen)"), canon("self.file_obj.seek(self.sinfo.entries[ifile].hdrlen, 0)"),
+                            canon("self.file_obj.seek(self.sinfo.entries[ifile].hdrlen, os.SEEK_SET)")) and \
+        nf2.before(opens[0], seeks[0]) and set(opens[0].ctx) == set(seeks[0].ctx)
     (res.ok if ok else res.bad)("R1", s2, s2.node, "_seek2hdr(i): open file i, then absolute seek to entries[i].hdrlen" if ok else
-                                f"_seek2hdr no longer opens file i and seeks to that same file's header length: {body}", construct="_seek2hdr", key="_seek2hdr")
+                                f"_seek2hdr no longer opens file i and seeks to that same file's header length: {[e.text() for e in opens + seeks]}",
+                                construct="_seek2hdr", key="_seek2hdr")
     for f in prog.module(FIO).funcs.values():
         for s in body_walk(f.node):
             if isinstance(s, ast.Assign) and any(dotted(t) == "self.ifile_cur" for t in s.targets):
@@ -79,11 +91,14 @@ def run(prog: Program, res: Result, tier: str) -> None:
         res.ok("R1", f, c, f"{f.qualname} changes file through _seek2hdr", key=f"_seek2hdr@{f.qualname}")
     res.notes.append(f"callers of _seek2hdr: {n_s2} (3 confirmed by hand; enforced through the R1 instance floor)")
     op = prog.func(FIO, "FileBase._open")
-    src = norm(op.node)
-    ok = "if ifile < 0 or ifile >= len(self.files):" in src and "raise ValueError(msg)" in src and \
-        "file_obj = self.opener(self.files[ifile], mode=self.mode)" in src and "if ifile != self.ifile_cur:" in src
-    (res.ok if ok else res.bad)("R3", op, op.node, "opening a file index outside the list raises ValueError (a counted read past the end of the stream fails)" if ok else
-                                "_open no longer rejects an out-of-range file index with ValueError", construct="_open", key="_open:bounds")
+    fo = flow_of(op)
+    openers = [c for c in calls_in_body(op.node) if dotted(c.func) == "self.opener"]
+    ok, why = guarded(fo, openers, [("<=0", P("-ifile")), ("<0", P("ifile - len(self.files)"))])
+    nfo = normal_form(op)
+    okf = any(e.text() == canon("self.opener(self.files[ifile], mode=self.mode)") for e in nfo.sets("self.file_obj"))
+    (res.ok if ok and okf else res.bad)("R3", op, op.node, "opening a file index outside the list raises ValueError (a counted read past the end of the stream fails)"
+                                        if ok and okf else "_open no longer rejects an out-of-range file index with ValueError before opening files[ifile]: " +
+                                        "; ".join(why or ["file_obj is not opener(files[ifile], mode)"]), construct="_open", key="_open:bounds")
 
     # ---- R2 positioned before read --------------------------------------------------------------------
     n2 = 0
@@ -99,7 +114,7 @@ def run(prog: Program, res: Result, tier: str) -> None:
             key = f"positioned:{f.qualname}:{dotted(r.func)}"
             doms = [s for s in seeks if flow.cfg.dominates(flow.cfg.node_for(s), flow.cfg.node_for(r))]
             if doms:
-                p = PolyEnv().poly(doms[0].args[0])
+                p = PolyEnv().poly(flow.expand(doms[0].args[0], flow.cfg.node_for(doms[0])))
                 if p == Poly.sym("start") * Poly.sym("self.samp_stride"):
                     res.ok("R2", f, r, "the read is dominated by an absolute seek to start * bytes-per-sample", key=key)
                 else:
@@ -113,96 +128,99 @@ def run(prog: Program, res: Result, tier: str) -> None:
     # ---- R3 guards before effects ------------------------------------------------------------------------
     ss = prog.func(FIO, "FileReader._seek_set")
     flow = flow_of(ss)
-    guards = [s for s in body_walk(ss.node) if isinstance(s, ast.If) and always_raises(s.body)]
     effects = [c for c in calls_in_body(ss.node) if (dotted(c.func) or "").split(".")[-1] in ("_seek2hdr", "seek", "_open")]
     key = "_seek_set:guard"
-    ok = len(guards) == 1 and norm(guards[0].test) == "offset < 0 or offset >= self.sinfo.get_combined('datalen')" and \
-        "ValueError" in norm(guards[0]) and all(flow.cfg.dominates(flow.cfg.node_for(guards[0]), flow.cfg.node_for(e)) for e in effects)
-    (res.ok if ok else res.bad)("R3", ss, guards[0] if guards else ss.node, "offset < 0 or >= total data length raises ValueError before any file is opened or moved"
-                                if ok else "_seek_set does not reject offset < 0 or offset >= total data length before moving the stream", key=key, construct="_seek_set guard")
+    ok, why = guarded(flow, effects, [("<=0", P("-offset")), ("<0", P("offset - self.sinfo.get_combined('datalen')"))])
+    (res.ok if ok else res.bad)("R3", ss, effects[0] if effects else ss.node, "offset < 0 or >= total data length raises ValueError before any file is opened or moved"
+                                if ok else "_seek_set does not reject offset < 0 or offset >= total data length before moving the stream: " + "; ".join(why),
+                                key=key, construct="_seek_set guard")
     sk = prog.func(FIO, "FileReader.seek")
-    src = norm(sk.node)
-    ok = "if whence == 0: self._seek_set(offset)" in src and "elif whence == 1: self._seek_set(offset + self.cur_data_pos_stream)" in src and \
-        "raise ValueError(msg)" in src
-    (res.ok if ok else res.bad)("R3", sk, sk.node, "seek: whence 0 -> absolute, 1 -> current stream position + offset, anything else raises" if ok else
-                                "seek no longer maps whence 0/1 to absolute/relative stream offsets (or accepts other values)", construct="seek", key="seek:whence")
+    nfs = normal_form(sk)
+    moves = nfs.calls("self._seek_set")
+    okw = bool(moves)
+    for e in moves:
+        if e.under("whence == 0"):
+            okw = okw and e.text() == canon("self._seek_set(offset)")
+        elif e.under("whence == 1"):
+            okw = okw and e.text() == canon("self._seek_set(offset + self.cur_data_pos_stream)")
+        else:
+            okw = False
+    fsk = flow_of(sk)
+    mv_nodes = {fsk.cfg.node_for(c) for c in calls_in_body(sk.node) if dotted(c.func) == "self._seek_set"}
+    okw = okw and len(moves) == 2 and fsk.cfg.must_pass(fsk.cfg.entry, fsk.cfg.exit, mv_nodes)
+    (res.ok if okw else res.bad)("R3", sk, sk.node, "seek: whence 0 -> absolute, 1 -> current stream position + offset, anything else raises" if okw else
+                                 "seek no longer maps whence 0/1 to absolute/relative stream offsets (or accepts other values)", construct="seek", key="seek:whence")
     rb = prog.func(READERS, "FilReader.read_block")
     flow = flow_of(rb)
-    guards = [s for s in body_walk(rb.node) if isinstance(s, ast.If) and always_raises(s.body)]
     eff = [c for c in calls_in_body(rb.node) if (dotted(c.func) or "").startswith("self._file.")]
-    want = {"fch1 > self.header.fch1 or nchans > self.header.nchans", "start < 0 or start + nsamps > self.header.nsamples"}
-    ok = want <= {norm(g.test) for g in guards} and eff and all(flow.cfg.dominates(flow.cfg.node_for(g), flow.cfg.node_for(e)) for g in guards for e in eff) \
-        and all("ValueError" in norm(g) for g in guards)
-    (res.ok if ok else res.bad)("R3", rb, rb.node, "read_block: both range guards raise ValueError before the stream is touched" if ok else
-                                "read_block's range guards no longer dominate the seek/read or no longer cover start<0 / start+nsamps>nsamples",
+    ok, why = guarded(flow, eff, [("<=0", P("-start")), ("<=0", P("start + nsamps - self.header.nsamples"))])
+    (res.ok if ok else res.bad)("R3", rb, rb.node, "read_block: start < 0 and start + nsamps > nsamples raise ValueError before the stream is touched" if ok else
+                                "read_block's range guards no longer dominate the seek/read or no longer cover start<0 / start+nsamps>nsamples: " + "; ".join(why),
                                 construct="read_block guards", key="read_block:guards")
-    src = norm(rb.node)
-    ok = "data = self._file.cread(self.header.nchans * nsamps)" in src and "nsamps_read = data.size // self.header.nchans" in src and \
-        "data = data.reshape(nsamps_read, self.header.nchans).transpose()" in src
-    (res.ok if ok else res.bad)("R3", rb, rb.node, "read_block reads nchans*nsamps elements and views them as (nsamps, nchans).T" if ok else
-                                "read_block no longer reads nchans*nsamps elements / reshapes (nsamps, nchans)", construct="read_block read", key="read_block:read")
+    reads = [c for c in calls_in_body(rb.node) if dotted(c.func) == "self._file.cread"]
+    okr = len(reads) == 1 and reads[0].args and PolyEnv().poly(flow.expand(reads[0].args[0], flow.cfg.node_for(reads[0]))) == P("self.header.nchans * nsamps")
+    nfb = normal_form(rb)
+    shaped = [e for e in nfb.effects if e.value and ".reshape(" in e.text() and ".transpose()" in e.text()]
+    want_shape = strip_ordinals(canon("self._file.cread(self.header.nchans * nsamps).reshape(self._file.cread(self.header.nchans * nsamps).size // self.header.nchans, "
+                                      "self.header.nchans).transpose()"))
+    okr = okr and any(want_shape in e.text() for e in shaped)
+    (res.ok if okr else res.bad)("R3", rb, rb.node, "read_block reads nchans*nsamps elements and views them as (nsamps, nchans).T" if okr else
+                                 "read_block no longer reads nchans*nsamps elements / reshapes (nsamps, nchans)", construct="read_block read", key="read_block:read")
 
     # ---- R4 file-relative offset -------------------------------------------------------------------------------
     flow = flow_of(ss)
     env = PolyEnv()
 
-    def P(text: str) -> Poly:
-        return env.poly(ast.parse(text, mode="eval").body)
-
-    fid = [d for d in flow.defs if d.var == "fileid" and d.kind == "assign"]
-    ok = len(fid) == 1 and norm(fid[0].value) == "np.where(offset < self.sinfo.cumsum_datalens)[0][0]"
-    (res.ok if ok else res.bad)("R4", ss, fid[0].stmt if fid else ss.node, "file = first index with offset < cumulative data length" if ok else
-                                "_seek_set no longer picks the first file whose cumulative data length exceeds the offset (strict <)",
-                                key="_seek_set:fileid", construct="fileid")
+    nfs = normal_form(ss)
+    FID = "np.where(offset < self.sinfo.cumsum_datalens)[0][0]"
+    enters = nfs.calls("self._seek2hdr")
+    ok = len(enters) == 1 and enters[0].text() == canon(f"self._seek2hdr({FID})")
+    (res.ok if ok else res.bad)("R4", ss, ss.node, "file = first index with offset < cumulative data length, entered through _seek2hdr at its header end" if ok else
+                                "_seek_set no longer enters, through _seek2hdr, the first file whose cumulative data length exceeds the offset (strict <): "
+                                f"{[e.text() for e in enters]}", key="_seek_set:fileid", construct="fileid")
     s2calls = [c for c in calls_in_body(ss.node) if (dotted(c.func) or "") == "self._seek2hdr"]
-    ok = len(s2calls) == 1 and len(s2calls[0].args) == 1 and norm(s2calls[0].args[0]) == "fileid"
-    (res.ok if ok else res.bad)("R4", ss, s2calls[0] if s2calls else ss.node, "that file is opened at its header end" if ok else
-                                "_seek_set does not enter the selected file through _seek2hdr(fileid)", key="_seek_set:enter", construct="_seek2hdr(fileid)")
-    inseeks = [c for c in calls_in_body(ss.node) if (dotted(c.func) or "") == "self.file_obj.seek"]
-    want_first = P("offset")
-    want_later = P("offset - self.sinfo.cumsum_datalens[fileid - 1]")
+    inseeks = nfs.calls("self.file_obj.seek")
+    rel = ("os.SEEK_CUR", "io.SEEK_CUR", "1")
+    later = {canon(f"self.file_obj.seek(offset - self.sinfo.cumsum_datalens[{FID} - 1], {w})") for w in rel}
+    first = {canon(f"self.file_obj.seek(offset, {w})") for w in rel}
+    both = {canon(f"self.file_obj.seek(offset if {FID} == 0 else offset - self.sinfo.cumsum_datalens[{FID} - 1], {w})") for w in rel}
     if not inseeks:
         res.bad("R4", ss, ss.node, "_seek_set performs no in-file seek", key="_seek_set:inseek", construct="in-file seek")
-    for c in inseeks:
-        wh = c.args[1] if len(c.args) > 1 else next((k.value for k in c.keywords if k.arg == "whence"), None)
-        rel = wh is not None and norm(wh) in ("os.SEEK_CUR", "io.SEEK_CUR", "1")
-        p = env.poly(flow.expand(c.args[0], flow.cfg.node_for(c), stop={"offset", "fileid"}))
-        conds = [norm(t) for t in flow.control_conditions(flow.cfg.node_for(c))]
-        in_first = any(t in ("fileid == 0", "not fileid", "0 == fileid") for t in conds) and _on_true_branch(c, ("fileid == 0", "not fileid", "0 == fileid"))
-        after = bool(s2calls) and flow.cfg.dominates(flow.cfg.node_for(s2calls[0]), flow.cfg.node_for(c))
+    raw_seeks = [c for c in calls_in_body(ss.node) if (dotted(c.func) or "") == "self.file_obj.seek"]
+    covered = bool(raw_seeks) and flow.cfg.must_pass(flow.cfg.entry, flow.cfg.exit, {flow.cfg.node_for(c) for c in raw_seeks})
+    for e in inseeks:
+        in_first = e.under(f"{FID} == 0")
+        after = bool(enters) and nfs.before(enters[0], e)
         key = f"_seek_set:inseek:{'first' if in_first else 'later'}"
-        good = rel and after and ((in_first and p == want_first) or (not in_first and p == want_later) or
-                                  (not conds and p == want_later))
+        good = after and covered and (e.text() in later or e.text() in both or (in_first and e.text() in first))
         if good:
-            res.ok("R4", ss, c, "in-file offset = stream offset - data of the preceding files, relative (SEEK_CUR) to the header end", key=key)
+            res.ok("R4", ss, raw_seeks[0], "in-file offset = stream offset - data of the preceding files, relative (SEEK_CUR) to the header end", key=key)
         else:
-            res.bad("R4", ss, c, f"in-file seek is to {p.canon()} ({'relative' if rel else 'NOT relative to the header end'}); expected "
-                    f"{(want_first if in_first else want_later).canon()} relative to the header end after _seek2hdr", key=key)
+            res.bad("R4", ss, raw_seeks[0] if raw_seeks else ss.node, f"in-file seek is `{e.text()}`; expected offset"
+                    f"{'' if in_first else ' - cumsum_datalens[file - 1]'} relative (SEEK_CUR) to the header end after _seek2hdr, on every path", key=key)
     cs = prog.func("sigpyproc.io.sigproc", "StreamInfo.cumsum_datalens")
-    ok = "return np.cumsum(self.get_info_list('datalen'))" in norm(cs.node)
+    ok = [e.text() for e in normal_form(cs).returns()] == [canon("np.cumsum(self.get_info_list('datalen'))")]
     (res.ok if ok else res.bad)("R4", cs, cs.node, "cumsum_datalens = cumulative sum of the per-file data lengths" if ok else "cumsum_datalens changed", construct="cumsum", key="cumsum")
 
     # ---- R5 reported position --------------------------------------------------------------------------------------
-    from ..props import inline_props
     ps = prog.func(FIO, "FileReader.cur_data_pos_stream")
     pf = prog.func(FIO, "FileReader.cur_data_pos_file")
-    rets = [s for s in body_walk(pf.node) if isinstance(s, ast.Return) and s.value is not None and not (isinstance(s.value, ast.Constant))]
-    ok = len(rets) == 1 and env.poly(rets[0].value) == P("self.file_obj.tell() - self.sinfo.entries[self.ifile_cur].hdrlen")
-    (res.ok if ok else res.bad)("R5", pf, rets[0] if rets else pf.node, "position in file = tell() - this file's header length" if ok else
+    base = "self.file_obj.tell() - self.sinfo.entries[self.ifile_cur].hdrlen"
+    rets = [e for e in normal_form(pf).returns() if e.text() != "None"]
+    ok = bool(rets) and all(e.text() == canon(base) for e in rets)
+    (res.ok if ok else res.bad)("R5", pf, pf.node, "position in file = tell() - this file's header length" if ok else
                                 "cur_data_pos_file is not tell() - hdrlen of the current file", construct="cur_data_pos_file", key="pos:file")
-    fl2 = flow_of(ps)
-    rets = [s for s in body_walk(ps.node) if isinstance(s, ast.Return) and s.value is not None and not isinstance(s.value, ast.Constant)]
-    base = P("self.file_obj.tell() - self.sinfo.entries[self.ifile_cur].hdrlen")
+    rets = [e for e in normal_form(ps).returns() if e.text() != "None"]
     okp = bool(rets)
-    for r in rets:
-        p = env.poly(inline_props(prog, ps.cls, fl2.expand(r.value, fl2.cfg.node_for(r))))
-        first = _on_true_branch(r, ("self.ifile_cur == 0", "not self.ifile_cur"))
-        want = base if first else base + P("self.sinfo.cumsum_datalens[self.ifile_cur - 1]")
-        if p != want:
+    prev = "self.sinfo.cumsum_datalens[self.ifile_cur - 1]"
+    for e in rets:
+        firstf = e.under("self.ifile_cur == 0")
+        wants = {canon(f"{b} + {prev}") for b in ("self.cur_data_pos_file", f"({base})")} | \
+            {canon(f"{b} + (0 if self.ifile_cur == 0 else {prev})") for b in ("self.cur_data_pos_file", f"({base})")}
+        if firstf:
+            wants |= {canon("self.cur_data_pos_file"), canon(base)}
+        if e.text() not in wants:
             okp = False
-    if len(rets) == 1:
-        # single-expression form must still add the preceding files' data (first file handled by a conditional expression)
-        okp = okp or False
     (res.ok if okp else res.bad)("R5", ps, ps.node, "stream position = position in file + data of the preceding files (none for the first file)" if okp else
                                  "cur_data_pos_stream is not (tell - hdrlen) + cumsum_datalens[ifile-1]", construct="cur_data_pos_stream", key="pos:stream")
 
@@ -210,29 +228,37 @@ def run(prog: Program, res: Result, tier: str) -> None:
     SIG = "sigpyproc.io.sigproc"
     si = prog.cls(SIG, "StreamInfo")
     defs = [
-        ("get_info_list", "return [getattr(entry, key) for entry in self.entries]", "per-file values in file order"),
-        ("get_combined", "return sum(self.get_info_list(key))", "stream total = sum over files"),
-        ("add_entry", "self.entries.append(finfo)", "files are appended in the order given"),
+        ("get_info_list", "ret", "[getattr(entry, key) for entry in self.entries]", "per-file values in file order"),
+        ("get_combined", "ret", "sum(self.get_info_list(key))", "stream total = sum over files"),
+        ("add_entry", "expr", "self.entries.append(finfo)", "files are appended in the order given"),
     ]
-    for name, want, what in defs:
+    for name, kind, want, what in defs:
         m = si.methods.get(name)
-        ok = m is not None and want in norm(m.node)
+        ok = m is not None and any(e.kind == kind and e.text() == canon(want) for e in normal_form(m).effects)
         (res.ok if ok else res.bad)("R7", m, m.node if m else si.node, f"StreamInfo.{name}: {what}" if ok else f"StreamInfo.{name} no longer is `{want}`",
                                     construct=f"StreamInfo.{name}", key=f"sinfo:{name}")
     pm = prog.func(SIG, "parse_header_multi")
-    src = norm(pm.node)
-    ok = "sinfo = StreamInfo([FileInfo.from_dict(header)])" in src and "for filename in filenames[1:]:" in src and \
-        "sinfo.add_entry(FileInfo.from_dict(hdr))" in src and "header['nsamples'] = header['stream_info'].get_combined('nsamples')" in src and \
-        "match_header(header, hdr)" in src
+    import re
+    effs = normal_form(pm).effects
+    files = r"(?:\[?\$v\d+(?:@\d+)?\]?|filenames)"
+    ok_first = [e for e in effs if e.kind == "set" and re.fullmatch(rf"StreamInfo\(\[FileInfo\.from_dict\(parse_header\({files}\[0\]\)\)\]\)", e.text())]
+    ok_rest = [e for e in effs if e.kind == "expr" and re.fullmatch(r"\$v\d+\.add_entry\(FileInfo\.from_dict\(parse_header\((\w+|L<[^>]*>)\)\)\)", e.text())]
+    ok_match = [e for e in effs if e.kind == "expr" and re.fullmatch(rf"match_header\(parse_header\({files}\[0\]\), parse_header\((\w+|L<[^>]*>)\)\)", e.text())]
+    ok_total = [e for e in effs if e.kind == "set" and e.target.endswith("['nsamples']") and e.text().endswith("['stream_info'].get_combined('nsamples')")]
+    loops = [l for l in body_walk(pm.node) if isinstance(l, ast.For)]
+    ok_loop = len(loops) == 1 and isinstance(loops[0].iter, ast.Subscript) and isinstance(loops[0].iter.slice, ast.Slice) and \
+        loops[0].iter.slice.lower is not None and norm(loops[0].iter.slice.lower) == "1" and loops[0].iter.slice.upper is None and loops[0].iter.slice.step is None
+    ok = bool(ok_first) and bool(ok_rest) and bool(ok_match) and bool(ok_total) and ok_loop
     (res.ok if ok else res.bad)("R7", pm, pm.node, "one FileInfo per file in the given order (headers must match); stream nsamples = sum of the files'" if ok else
                                 "parse_header_multi no longer builds the stream table from every file in order", construct="parse_header_multi", key="sinfo:parse_multi")
     fi = prog.cls(SIG, "FileInfo")
     ok = {"filename", "hdrlen", "datalen", "nsamples", "tstart", "tsamp"} <= set(fi.attrs_fields) and \
-        "info_filtered = {key: info[key] for key in attrs.fields_dict(cls)}" in norm(fi.methods["from_dict"].node)
+        any(e.text() == canon("cls(**{key: info[key] for key in attrs.fields_dict(cls)})") for e in normal_form(fi.methods["from_dict"]).returns())
     (res.ok if ok else res.bad)("R7", fi.methods["from_dict"], fi.node, "FileInfo carries each file's own hdrlen/datalen/nsamples taken by name from its parsed header" if ok else
                                 "FileInfo no longer takes hdrlen/datalen/nsamples by name from the parsed header", construct="FileInfo", key="sinfo:fileinfo")
     frd = prog.func(FIO, "FileReader.__init__")
-    ok = "filenames = self.sinfo.get_info_list('filename')" in norm(frd.node) and "super().__init__(filenames, mode)" in norm(frd.node)
+    ok = any(e.text() == canon("super().__init__(self.sinfo.get_info_list('filename'), mode)") for e in normal_form(frd).exprs()) and \
+        any(e.text() == "sinfo" for e in normal_form(frd).sets("self.sinfo"))
     (res.ok if ok else res.bad)("R7", frd, frd.node, "the reader opens exactly the files of the stream table, in table order" if ok else
                                 "FileReader no longer opens the stream table's files in order", construct="FileReader.__init__", key="sinfo:files")
 
@@ -254,7 +280,7 @@ def run(prog: Program, res: Result, tier: str) -> None:
     res.floor("R1", 8)
     res.floor("R2", 3)
     res.floor("R3", 5)
-    res.floor("R4", 5)
+    res.floor("R4", 4)
     res.floor("R5", 2)
     res.floor("R6", 3)
     res.floor("R7", 6)
